@@ -1,8 +1,111 @@
-(* Props/C08.v -- placeholder while the proofs are being written *)
-From Coq Require Import List.
-From V Require Import Base.UString Model.Markings.
+(* Props/C08.v -- property C08: a granular-marking selector is valid exactly
+   when it addresses something.  Statements only; proofs in Proofs/MarkingsC08.v.
+
+   Model/Markings.v mirrors stix2/markings/utils.py (iterpath,
+   _evaluate_expression, _validate_selector, validate) with every deviation of
+   the pinned code as a variant parameter (record cfg).  Spec/MarkingSpec.v
+   says what "addresses" means (relation `addresses`, function `resolve`)
+   independently of how the code enumerates paths.                          *)
+From Coq Require Import String.
+From Coq Require Import NArith ZArith List Bool.
+From V Require Import Base.UString Model.Markings Spec.MarkingSpec Proofs.MarkingsC08.
 Import ListNotations.
 
-Theorem validate_empty_rejects : forall c top, validate c top [] = false.
-Proof. reflexivity. Qed.
-Print Assumptions validate_empty_rejects.
+(* ---- the full theorem, for every variant in which the walking deviations are repaired ---- *)
+
+(* selector_repaired c := c_falsy c = AnyValue /\ c_index c = Position /\ c_embed c = AnyMapping /\ c_nest c = NestedLists;
+   the other four fields of c (inheritance, API combination, syntax, v20 Indicator) are arbitrary. *)
+Theorem validate_iff_addresses : forall c, selector_repaired c ->
+  forall top sels,
+    validate c top sels = true <-> sels <> [] /\ forall s, In s sels -> addresses_something top s.
+Proof. exact MarkingsC08.validate_iff_addresses. Qed.
+Print Assumptions validate_iff_addresses.
+
+Theorem validate_selector_iff_addresses : forall c, selector_repaired c ->
+  forall top sel, validate_selector c top sel = true <-> addresses_something top sel.
+Proof. exact MarkingsC08.validate_selector_iff_addresses. Qed.
+Print Assumptions validate_selector_iff_addresses.
+
+(* the same with `resolve` (a function) for trees whose mappings have distinct keys, as every Python mapping has *)
+Theorem validate_selector_iff_resolves : forall c, selector_repaired c ->
+  forall top sel, uniq_keys (VDict top) ->
+    (validate_selector c top sel = true <-> exists p v, render p = sel /\ resolve_top top p = Some v).
+Proof. exact MarkingsC08.validate_selector_iff_resolves. Qed.
+Print Assumptions validate_selector_iff_resolves.
+
+(* what iterpath yields, for the repaired walk: exactly the non-empty step lists that address a value *)
+Theorem walk_spec : forall c, walks_everything c ->
+  forall v b segs x,
+    In (segs, x) (walk c b v) <-> exists p, p <> [] /\ map render_step p = segs /\ addresses v p x.
+Proof. exact MarkingsC08.walk_spec. Qed.
+Print Assumptions walk_spec.
+
+Example repaired_exists : selector_repaired cfg_repaired.
+Proof. exact repaired_is_repaired. Qed.
+
+(* ---- every marking function and the constructor use that same test (all variants) ---- *)
+
+Theorem every_function_rejects : forall c o m sels i d r l,
+  validate c (view o) sels = false ->
+  get_markings c o (Some sels) i d r l = Err EInvalidSelector /\
+  is_marked c o m (Some sels) i d = Err EInvalidSelector /\
+  add_markings c o m (Some sels) = Err EInvalidSelector /\
+  remove_markings c o m (Some sels) = Err EInvalidSelector /\
+  clear_markings c o (Some sels) r l = Err EInvalidSelector /\
+  set_markings c o m (Some sels) r l = Err EInvalidSelector.
+Proof. exact MarkingsC08.every_function_rejects. Qed.
+Print Assumptions every_function_rejects.
+
+Theorem queries_accept : forall c o sels i d r l,
+  validate c (view o) sels = true -> exists ms, g_get_markings c o sels i d r l = Ok ms.
+Proof. exact MarkingsC08.queries_accept. Qed.
+Print Assumptions queries_accept.
+
+Theorem constructor_validates : forall c o,
+  c_ind20 c = Ind20Checked -> o_kind o = KObj -> ctor_check c o = None ->
+  forall g, In g (gms_list o) -> validate c (view o) (g_sels g) = true.
+Proof. exact MarkingsC08.constructor_validates. Qed.
+Print Assumptions constructor_validates.
+
+(* ---- the deviations of the pinned code: one witness each (all other fields repaired) ---- *)
+(* refutes c := exists top sel, addresses_something top sel /\ validate_selector c top sel = false *)
+
+Theorem falsy_refuted : refutes (with_falsy TruthyOnly).
+Proof. exact MarkingsC08.falsy_refuted. Qed.
+Print Assumptions falsy_refuted.
+
+Theorem dup_element_refuted : refutes (with_index FirstEqual).
+Proof. exact MarkingsC08.dup_element_refuted. Qed.
+Print Assumptions dup_element_refuted.
+
+Theorem embedded_refuted : refutes (with_embed DictOnly).
+Proof. exact MarkingsC08.embedded_refuted. Qed.
+Print Assumptions embedded_refuted.
+
+Theorem nested_list_refuted : refutes (with_nest FlatLists).
+Proof. exact MarkingsC08.nested_list_refuted. Qed.
+Print Assumptions nested_list_refuted.
+
+Theorem syntax_refuted :
+  exists top sel, addresses_something top sel /\ validate_selector (with_syntax LowerKeys) top sel = true /\
+                  selector_syntax_ok (with_syntax LowerKeys) sel = false /\
+                  selector_syntax_ok (with_syntax AnyCaseKeys) sel = true.
+Proof. exact MarkingsC08.syntax_refuted. Qed.
+Print Assumptions syntax_refuted.
+
+Theorem ind20_refuted :
+  ~ addresses_something (view ind20_witness) (u "nonexistent") /\
+  ctor_check (with_ind20 Ind20Unchecked) ind20_witness = None /\
+  ctor_check (with_ind20 Ind20Checked) ind20_witness = Some EInvalidSelector.
+Proof. exact MarkingsC08.ind20_refuted. Qed.
+Print Assumptions ind20_refuted.
+
+Theorem witnesses_accepted_when_repaired :
+  validate_selector cfg_repaired [(u "is_family", VBool false)] (u "is_family") = true /\
+  validate_selector cfg_repaired [(u "labels", VList [VStr (u "a"); VStr (u "a")])] (u "labels.[1]") = true /\
+  validate_selector cfg_repaired
+    [(u "external_references", VList [VObj [(u "source_name", VStr (u "s")); (u "url", VStr (u "http://x"))]])]
+    (u "external_references.[0].url") = true /\
+  validate_selector cfg_repaired [(u "x_m", VList [VList [VStr (u "a"); VStr (u "b")]])] (u "x_m.[0].[1]") = true.
+Proof. exact MarkingsC08.witnesses_accepted_when_repaired. Qed.
+Print Assumptions witnesses_accepted_when_repaired.
